@@ -137,7 +137,8 @@ CondResult(c, a, b) ==
      ELSE IF Bad(cb) THEN Unspec
      ELSE IF IsErr(sel) THEN Err
      ELSE IF Bad(sel) \/ oth.t = "unspec" THEN Unspec
-     ELSE IF IsErr(oth) \/ oth.t = "null" \/ sel.t = "null" THEN sel         \* nothing to unify with
+     ELSE IF IsErr(oth) THEN Unspec                                            \* an ill-typed branch that is not taken: whether it is reported is left open
+     ELSE IF oth.t = "null" \/ sel.t = "null" THEN sel                         \* nothing to unify with
      ELSE IF ~Scalar(sel) \/ ~Scalar(oth) THEN (IF sel.t = oth.t /\ VEq(sel, oth) THEN sel ELSE Unspec)
      ELSE IF sel.t = oth.t THEN sel
      ELSE IF "str" \in {sel.t, oth.t} THEN ToStr(sel)                         \* a string and a number / bool unify to string
